@@ -420,9 +420,9 @@ def run(repo, check):
     check.run_rule(rule_r1, repo, check.tier)
     check.run_rule(rule_r2, repo)
     check.run_rule(rule_r3, repo)
-    r4 = c04.rule_padding_zero(repo, 'C02.R4')
+    r4 = check.call(c04.rule_padding_zero, repo, 'C02.R4')
     check.add(r4)
-    r4b = c19.rule_r6(repo)
+    r4b = check.call(c19.rule_r6, repo)
     r4b.rule = 'C02.R4b'
     for f in r4b.findings:
         f.rule = 'C02.R4b'
@@ -430,7 +430,7 @@ def run(repo, check):
     check.run_rule(rule_r5, repo)
     check.run_rule(rule_r6, repo)
     from sa.rules import c07
-    r7 = c07.rule_r6(repo)
+    r7 = check.call(c07.rule_r6, repo)
     r7.rule = 'C02.R7'
     r7.title = 'the encoder takes a bitmap from the bits of the subset being encoded (shared with C07.R6)'
     r7.findings = [f for f in r7.findings if f.key.startswith('Encoder.')]
